@@ -284,6 +284,108 @@ var atomAlpha = []string{"a", "b", "(", ")", "[", "]", ",", "\"s t\"", "`r`", "/
 
 // ---------------------------------------------------------------- watchdog
 
+// retention: what a parser call returned (error list, syntax tree) must not change when the parser is
+// called again. Every ordered pair of a small input set through every parser: the first result is
+// rendered, the second input is parsed twice, the first result is rendered again.
+func retention(r *fw.Run) {
+	l := fw.NewLocal()
+	defer r.Merge(l)
+	inputs := []string{
+		"module example.com/m\n", "module example.com/m\n\ngo 1.21\n\nrequire a.com/x v1.0.0 // c\n", "a b\n", "a (\n\tb c // d\n)\n", "// only a comment\n", "",
+		"a /* b\n", "\"unterminated", "a (\nb\n", ")\n", "module a b c\n", "require x\n", "module example.com/m\nrequire a.com/x v1\n", "go 1.21\nuse ./a\n", "use (\n\t./a\n\t./b // s\n)\n",
+		"a \x01 b\n", "x\n/* y\n/* z\n", "module m\n\nretract [v1.0.0, v1.1.0] // why\n", "replace a => \"../b c\"\n", "`raw\n", "a\n\n\n(\n",
+	}
+	type parser struct {
+		name string
+		f    func(data []byte) (*modfile.FileSyntax, error)
+	}
+	parsers := []parser{
+		{"Parse", func(d []byte) (*modfile.FileSyntax, error) {
+			f, err := modfile.Parse("a.mod", d, nil)
+			return syn(f), err
+		}},
+		{"ParseLax", func(d []byte) (*modfile.FileSyntax, error) {
+			f, err := modfile.ParseLax("a.mod", d, nil)
+			return syn(f), err
+		}},
+		{"ParseWork", func(d []byte) (*modfile.FileSyntax, error) {
+			f, err := modfile.ParseWork("a.work", d, nil)
+			if f == nil {
+				return nil, err
+			}
+			return f.Syntax, err
+		}},
+		{"syntax", func(d []byte) (*modfile.FileSyntax, error) { return modfile.VerifParseSyntax("a.mod", d) }},
+	}
+	render := func(fs *modfile.FileSyntax, err error) string {
+		out := ""
+		if err != nil {
+			out = "error: " + err.Error() + "\n"
+			if el, ok := err.(modfile.ErrorList); ok {
+				for _, e := range el {
+					out += fmt.Sprintf("%s|%v|%s|%v\n", e.Filename, e.Pos, e.Verb, e.Err)
+				}
+			}
+		}
+		if fs != nil {
+			out += string(modfile.Format(fs)) + "|" + strings.Join(flattenPos(fs), ",")
+		}
+		return out
+	}
+	r.Bounds["retention_pairs"] = fmt.Sprintf("%d inputs x %d inputs x %d parsers", len(inputs), len(inputs), len(parsers))
+	for _, p := range parsers {
+		for _, x := range inputs {
+			for _, y := range inputs {
+				l.States++
+				l.Execs += 3
+				l.Transitions++
+				var msg string
+				func() {
+					defer func() {
+						if e := recover(); e != nil {
+							msg = fmt.Sprintf("panic: %v", e)
+						}
+					}()
+					fs, err := p.f([]byte(x))
+					before := render(fs, err)
+					p.f([]byte(y))
+					p.f([]byte(y))
+					if after := render(fs, err); after != before {
+						msg = fmt.Sprintf("the result of %s(%q) changed after %s(%q) was called:\nbefore: %s\nafter:  %s", p.name, x, p.name, y, before, after)
+					}
+				}()
+				if msg != "" {
+					c := caseT{Kind: "retention", Input: strconv.QuoteToASCII(p.name + "\x00" + x + "\x00" + y)}
+					r.Violation(c.key(), msg, c)
+				}
+			}
+		}
+	}
+}
+
+func syn(f *modfile.File) *modfile.FileSyntax {
+	if f == nil {
+		return nil
+	}
+	return f.Syntax
+}
+
+// flattenPos lists the start positions of all statements and lines.
+func flattenPos(fs *modfile.FileSyntax) []string {
+	var out []string
+	for _, st := range fs.Stmt {
+		s, e := st.Span()
+		out = append(out, fmt.Sprintf("%d:%d-%d:%d", s.Line, s.LineRune, e.Line, e.LineRune))
+		if b, ok := st.(*modfile.LineBlock); ok {
+			for _, ln := range b.Line {
+				s, e := ln.Span()
+				out = append(out, fmt.Sprintf("%d:%d-%d:%d %q", s.Line, s.LineRune, e.Line, e.LineRune, ln.Token))
+			}
+		}
+	}
+	return out
+}
+
 type watch struct {
 	cur   atomic.Pointer[string]
 	count atomic.Int64
@@ -404,6 +506,8 @@ func Run(r *fw.Run) {
 		r.Merge(l)
 	}
 
+	retention(r)
+
 	// generated files and insertions
 	stmts := modgen.ModStmts()
 	var files []modgen.File
@@ -516,6 +620,10 @@ func Replay(r *fw.Run, raw json.RawMessage) {
 	r.Transitions.Add(1)
 	r.Execs.Add(5)
 	r.Sample(c)
+	if c.Kind == "retention" {
+		retention(r)
+		return
+	}
 	if c.Kind == "insert" {
 		if _, err := modfile.ParseLax("go.mod", []byte(in), nil); err != nil {
 			r.Violation(c.key(), err.Error(), c)
